@@ -255,6 +255,11 @@ std::vector<Field> build()
         put(f, [](dj::track_snapshot& sn) { sn.sample_rate = 44100.0; });
         add(f, "48000.5", [](Tr& t) { t.set_sample_rate(48000.5); }, {"48000.5"}, {"48000.5"});
         put(f, [](dj::track_snapshot& sn) { sn.sample_rate = 48000.5; });
+        // a rate that truncates to zero as an integer (lengths are computed by integer division) and one below the waveform quantum
+        add(f, "0.5", [](Tr& t) { t.set_sample_rate(0.5); }, {"0.5"}, {"0.5"}, false);
+        put(f, [](dj::track_snapshot& sn) { sn.sample_rate = 0.5; });
+        add(f, "209", [](Tr& t) { t.set_sample_rate(209.0); }, {"209"}, {"209"}, false);
+        put(f, [](dj::track_snapshot& sn) { sn.sample_rate = 209.0; });
         F.push_back(f);
     }
     {
